@@ -25,8 +25,45 @@ Fixpoint norm_b (v : val) {struct v} : val :=
   | VPtr (Some x) => VPtr (Some (norm_b x))
   | _ => v
   end.
-Definition dumpb (v : val) : string := dump (norm_b v).
-Definition dumpc (pz : bool) (v : val) : string := dump (canon pz v).
+(* Go cannot tell []uint8 from []byte (byte is an alias), so the harness prints every slice of uint8
+   in the bytes form; the emitter does tell them apart (type name "[]uint8": a plain slice, copied
+   element by element) and so do the value trees.  [u8fix] rewrites the slices of a []uint8 node into
+   the bytes form before printing - a printing convention only. *)
+Definition is_u8_elem (en : node) : bool :=
+  negb (n_ptr en) &&
+  match n_typ en with typeBasic => String.eqb (n_typu en) "uint8" || String.eqb (n_typu en) "byte" | _ => false end.
+Definition byte_of_val (v : val) : ascii := match v with VInt z => ascii_of_N (Z.to_N z) | _ => ascii_of_N 0 end.
+
+Fixpoint u8fix (n : node) (v : val) {struct n} : val :=
+  match n with
+  | Node ty tn tu nm pk pki p chld mk mv sl hb hc =>
+    let inner (x : val) : val :=
+      match ty with
+      | typeStruct =>
+        match x with
+        | VStruct fs => VStruct ((fix go (cs : list node) (fs : list val) : list val :=
+                                    match cs, fs with c :: cr, f :: fr => u8fix c f :: go cr fr | _, _ => fs end) chld fs)
+        | _ => x
+        end
+      | typeMap =>
+        match x, mk, mv with
+        | VMap b kvs, Some kn, Some vn => VMap b (map (fun kv => (u8fix kn (fst kv), u8fix vn (snd kv))) kvs)
+        | _, _, _ => x
+        end
+      | typeSlice =>
+        if String.eqb tn "[]byte" then x else
+        match x, sl with
+        | VSlice b es e, Some en =>
+          if is_u8_elem en then VBytes b (map byte_of_val es) e else VSlice b (map (u8fix en) es) e
+        | _, _ => x
+        end
+      | typeBasic => x
+      end in
+    if p then match v with VPtr (Some x) => VPtr (Some (inner x)) | _ => v end else inner v
+  end.
+
+Definition dumpb (n : node) (v : val) : string := dump (norm_b (u8fix n v)).
+Definition dumpc (pz : bool) (n : node) (v : val) : string := dump (canon pz (u8fix n v)).
 
 Definition bits (l : list bool) : string := String.concat "" (map (fun b : bool => if b then "1" else "0") l).
 
@@ -35,21 +72,21 @@ Definition model_cycles (mode : string) (n : node) (d0 : val) (srcs : list val) 
   | None => "?"
   | Some st =>
     let ds := map snd st in let zs := map (fun p => is_empty (fst p)) st in
-    if String.eqb mode "raw" then "e=nil;d=" ++ String.concat "|" (map dumpb ds)
-    else "e=nil;z=" ++ bits zs ++ ";c=" ++ String.concat "|" (map (dumpc true) ds) ++ ";same=1"
+    if String.eqb mode "raw" then "e=nil;d=" ++ String.concat "|" (map (dumpb n) ds)
+    else "e=nil;z=" ++ bits zs ++ ";c=" ++ String.concat "|" (map (dumpc true n) ds) ++ ";same=1"
   end.
 
 (* the demand: after every Reset the destination is empty; after every cycle it is that
    cycle's source in normal form; the sources are not touched *)
-Definition spec_cycles (mode : string) (srcs : list val) : string :=
+Definition spec_cycles (mode : string) (n : node) (srcs : list val) : string :=
   if String.eqb mode "raw" then "*"
-  else "e=nil;z=" ++ bits (map (fun _ => true) srcs) ++ ";c=" ++ String.concat "|" (map (dumpc true) srcs) ++ ";same=1".
+  else "e=nil;z=" ++ bits (map (fun _ => true) srcs) ++ ";c=" ++ String.concat "|" (map (dumpc true n) srcs) ++ ";same=1".
 
 Definition model_reset (mode : string) (n : node) (v : val) : string :=
   match reset_method n (APtr (Some v)) with
   | Ret (Some v') None =>
-    if String.eqb mode "raw" then "e=nil;d=" ++ dumpb v'
-    else "e=nil;z=" ++ bits [is_empty v'] ++ ";c=" ++ dumpc true v'
+    if String.eqb mode "raw" then "e=nil;d=" ++ dumpb n v'
+    else "e=nil;z=" ++ bits [is_empty v'] ++ ";c=" ++ dumpc true n v'
   | Ret _ e => "e=" ++ pr_err e
   | Panic k => "PANIC:" ++ pr_pkind k
   | Fall _ => "?"
@@ -57,7 +94,7 @@ Definition model_reset (mode : string) (n : node) (v : val) : string :=
 (* "Reset through a pointer leaves the value empty": the normal form of an empty value of the
    type is that of its zero value *)
 Definition spec_reset (mode : string) (n : node) : string :=
-  if String.eqb mode "raw" then "*" else "e=nil;z=1;c=" ++ dumpc true (zero_val n).
+  if String.eqb mode "raw" then "*" else "e=nil;z=1;c=" ++ dumpc true n (zero_val n).
 
 (* ---------- histories ---------- *)
 Definition modes : list string := ["raw"; "canon"].
@@ -117,7 +154,7 @@ Definition cycle_lines (tier seed : Z) (u : string * ty) : list string :=
       "cycle," ++ mode ++ "," ++ hist_tag d0 srcs ++ ",cap" ++ nat_to_string cap ++ tab ++
       fst u ++ ";p;cycle;" ++ mode ++ sep ++ nat_to_string cap ++ sep ++ pr_val true d0 ++ sep ++
         String.concat "|" (map (pr_val true) srcs) ++ tab ++
-      model_cycles mode n d0 srcs ++ tab ++ spec_cycles mode srcs) modes)
+      model_cycles mode n d0 srcs ++ tab ++ spec_cycles mode n srcs) modes)
   (combine (seqn (List.length hs)) hs).
 
 Definition cases (tier : Z) (seed : Z) : list string :=
